@@ -62,6 +62,14 @@ Proof.
 Qed.
 Print Assumptions C20_consistency_applied_refuted.
 
+(* the applied revision can name a change that never reached the device (F-20g) *)
+Theorem C20_applied_revision_refuted : exists w, reach w /\ consistency_applied_ok w = false /\
+  match w_cfg w with Some c => match get_tx w (k_revision (c_ap c)) with Some t => t_ca t = Failed | None => False end | None => False end.
+Proof.
+  exists (run ls_unapplied). split; [exists ls_unapplied; reflexivity | split; [exact unapplied_refutes_applied | vm_compute; reflexivity]].
+Qed.
+Print Assumptions C20_applied_revision_refuted.
+
 (* hence Safety of spec/Config.tla does not hold for the code as it is *)
 Theorem C20_safety_refuted : exists w, reach w /\ safety_ok w = false.
 Proof.
